@@ -72,7 +72,18 @@ def run_ontologies(case):
     second = [[word.get(apply_op('eq', a, b), apply_op('eq', a, b)) for b in onts] for a in onts]
     ne = [[apply_op('ne', a, b) for b in onts] for a in onts]
     after = [(etree.tostring(o.generate_xml()), o.get_version()) for o in onts]
-    return {'eq': first, 'again': second == first, 'ne_consistent': all(
+
+    def shared_conflict(a, b):
+        # some definition both ontologies hold is in conflict with its counterpart (the element comparison raises)
+        for getter in ('get_object_types', 'get_concepts', 'get_event_types', 'get_event_sources'):
+            da, db = getattr(a, getter)(), getattr(b, getter)()
+            for name in da:
+                if name in db and apply_op('eq', da[name], db[name]) == 'EDXMLOntologyValidationError':
+                    return '%s %s' % (getter[4:-1].replace('_', ' '), name)
+        return None
+    hidden = [[i, j, shared_conflict(a, b)] for i, a in enumerate(onts) for j, b in enumerate(onts)
+              if first[i][j] != 'conflict' and shared_conflict(a, b)]
+    return {'hidden': hidden, 'eq': first, 'again': second == first, 'ne_consistent': all(
         (n == 'EDXMLOntologyValidationError') if e == 'conflict' else (n is (e != 'equal')) for er, nr in zip(first, ne) for e, n in zip(er, nr)),
         'pure': before == after, 'same_xml': [[x[0] == y[0] for y in before] for x in before]}
 
@@ -224,6 +235,18 @@ class C09(Property):
             # whole ontologies derived from a common ancestor (some definitions missing, upgraded or edited incompatibly),
             # some of them holding the definitions that a registered brick offers
             fam = c11.gen_upgrade_chain(rng) if i % 4 == 3 else c11.gen_family(rng)[0]
+            if i % 2 == 1:
+                # two more object types and a concept in every ontology, each varied on its own (a valid upgrade of one next
+                # to an incompatible edit of another: every pair of definitions has to be looked at)
+                bases = [['objecttype', dict(G.base_objecttype(), name='o.x1')], ['objecttype', dict(G.base_objecttype(), name='o.x2')],
+                         ['concept', dict(G.base_concept(), name='c.x')]]
+                for o in fam:
+                    o['extra'] = []
+                    for kind, b in bases:
+                        s = json.loads(json.dumps(b))
+                        for _ in range(rng.choice([0, 1, 1, 2])):
+                            s = G.vary(rng, kind, s)
+                        o['extra'].append([kind, s])
             yield {'kind': 'ontologies', 'onts': fam, 'brick': [rng.random() < 0.5 for _ in fam], 'defs': []}
         for i in range(10 if tier == 'quick' else 200):
             # an object type with a unit whose prefix radix is the default, written out or left out, next to another radix
@@ -327,6 +350,8 @@ class C09(Property):
 
             def m_ont(o, brick):
                 m = {mkey: ([G.model_def(kind, o[slot])] if o.get(slot) else []) for slot, kind, mkey in c11.SLOTS}
+                for kind, s in o.get('extra', []):
+                    m[{'objecttype': 'objectTypes', 'concept': 'concepts'}[kind]].append(G.model_def(kind, s))
                 if brick:
                     m['objectTypes'] = m['objectTypes'] + [G.model_def('objecttype', BRICK_OT)]
                     m['concepts'] = m['concepts'] + [G.model_def('concept', BRICK_C)]
@@ -339,7 +364,7 @@ class C09(Property):
             return 'undecided'
         if case['kind'] == 'ontologies':
             eq = replies[0]['eq']
-            return {'eq': eq, 'again': True, 'ne_consistent': True, 'pure': True, 'same_xml': 'undecided'}
+            return {'hidden': [], 'eq': eq, 'again': True, 'ne_consistent': True, 'pure': True, 'same_xml': 'undecided'}
         m = replies[0]['cmp']
         kind = case['kind']
         defs = case['defs']
@@ -379,6 +404,10 @@ class C09(Property):
                 return 'comparing the same ontologies a second time gives another answer'
             if not obs['ne_consistent']:
                 return '!= is not the negation of == for a pair of ontologies'
+            if obs.get('hidden'):
+                i, j, what = obs['hidden'][0]
+                return ('ontologies %d and %d: their definitions of %s are in conflict (comparing them raises), but comparing the '
+                        'ontologies answers %r' % (i, j, what, obs['eq'][i][j]))
             eq = obs['eq']
             for i in range(len(eq)):
                 if eq[i][i] != 'equal':
